@@ -8,18 +8,20 @@ import (
 	"pgregory.net/rapid"
 )
 
-// trigger rates (percent of cases that MAY use the construct).  These are
-// constructs for which the check has already produced a finding; they stay in
-// the domain (the property covers them) but at a low rate so that most cases
-// are free to reveal something new.
+// trigger rates (percent of cases that MAY use the construct).  The low rates
+// belong to constructs for which the check has produced a finding that is still
+// open; they stay in the domain (the property covers them) but rarely, so that
+// most cases are free to reveal something new.  The three at 100 produced
+// findings that have been repaired (63062d6, a3c3723, c5292fb): they are
+// ordinary constructs again, so a regression is found within a few cases.
 var triggerRates = map[string]int{
-	"xname":           8,
-	"dotimes-result":  4,
+	"xname":           100,
+	"dotimes-result":  100,
+	"samefile-import": 100,
 	"qqdata":          8,
 	"macrolet":        6,
 	"tmpl-shadow":     8,
 	"redefine":        5,
-	"samefile-import": 4,
 	"defname":         6,
 }
 
@@ -359,6 +361,10 @@ func (g *gen) section(p *pkg, first bool, earlier []*pkg) {
 		g.e.close()
 		g.e.nl()
 		for _, b := range q.exports {
+			if old := p.imports[b.name]; old != nil && old.pkg != b.pkg {
+				g.feat("import-conflict")
+				p.impConflict[b.name] = true
+			}
 			p.imports[b.name] = b
 			p.impFile[b.name] = g.fileIdx
 		}
@@ -558,7 +564,7 @@ func genCase() *rapid.Generator[Case] {
 			if g.pkgs[name] != nil {
 				continue
 			}
-			p := &pkg{name: name, own: map[string]*bind{}, imports: map[string]*bind{}, impFile: map[string]int{}}
+			p := &pkg{name: name, own: map[string]*bind{}, imports: map[string]*bind{}, impFile: map[string]int{}, impConflict: map[string]bool{}}
 			g.pkgs[name] = p
 			pks = append(pks, p)
 		}
